@@ -136,14 +136,38 @@ Theorem C12_matrix_rows_decreasing_prob : forall (M : list (list xv)) n ps cs M'
 Proof. exact (@mwa_ok xv). Qed.
 Print Assumptions C12_matrix_rows_decreasing_prob.
 
-(* scaling_matrix_spec (stretch item): a declarative characterisation of the line-by-line model of
-   _scaling_to_weight_matrix, for ANY initial limit `init` of lowest_prob_index.
-   cross M l c = crossover index of level l in column c (first position, counted from the bottom row, whose warning
-   level is >= l; 0 = never reached).  For every level l = 1..max_level, the weight assessment_weights[l-1] is added at
-   (row cross-1, column c-1) for exactly the columns c = 1..n_sev that `receive` it:
-       0 < cross(l,c) < init   and   for every column c' < c:  cross(l,c') = 0  or  cross(l,c) < cross(l,c')
-   i.e. the level is reached in column c strictly lower than in every column to its left that reaches it. *)
-Theorem C12_scaling_matrix_spec : forall init M aw,
+(* scaling_matrix_spec: the line-by-line model of _scaling_to_weight_matrix (argmax crossover search, lowest_prob_index
+   starting at n_prob + 1 as repaired by /repo commit 73a32af, np.flip) equals, for EVERY scaling matrix and weight list, the
+   declarative specification `scaling_to_wm_spec` (coq/model/C12.v):
+     cross M l c = position, counted from the bottom row, of the first entry of column c that is >= l (0: never reached);
+     for every level l = 1..max_level the weight assessment_weights[l-1] is added at (row cross-1, column c-1) for exactly
+     the columns c = 1..n_sev with  0 < cross(l,c)  and, for every column c' < c,  cross(l,c') = 0 or cross(l,c) < cross(l,c')
+   (the level is reached in column c strictly lower than in every column to its left that reaches it). *)
+Theorem C12_scaling_matrix_spec : forall M aw, scaling_to_wm M aw = scaling_to_wm_spec M aw.
+Proof. exact scaling_to_wm_is_spec. Qed.
+Print Assumptions C12_scaling_matrix_spec.
+
+(* the same for the list of placements, and entry by entry *)
+Theorem C12_scaling_placements : forall M aw, M <> [] ->
+  placements (length M - 1 + 1) M aw =
+  flat_map (fun level => map (place M aw level)
+                             (filter (fun c => (0 <? cross M level c)%nat &&
+                                               forallb (fun c' => (cross M level c' =? 0)%nat || (cross M level c <? cross M level c')%nat)
+                                                       (seq 1 (c - 1)))
+                                     (seq 1 (length (hd [] M) - 1))))
+           (seq 1 (max_level M aw)).
+Proof. exact code_placements_spec. Qed.
+Print Assumptions C12_scaling_placements.
+
+Theorem C12_scaling_entry : forall M aw r' c,
+  (r' < length M - 1)%nat -> (c < length (hd [] M) - 1)%nat ->
+  nth c (nth r' (scaling_to_wm M aw) []) 0 = wts_entry (spec_placements M aw) (length M - 1 - 1 - r')%nat c.
+Proof. exact scaling_entry. Qed.
+Print Assumptions C12_scaling_entry.
+
+(* for ANY initial limit `init` of lowest_prob_index the algorithm additionally requires cross < init: this is what the
+   former initialisation max_level + 1 got wrong (weights dropped when max_level < n_prob) *)
+Theorem C12_scaling_any_limit : forall init M aw,
   placements init M aw =
   flat_map (fun level => map (place M aw level)
                              (filter (fun c => (0 <? cross M level c)%nat && (cross M level c <? init)%nat &&
@@ -152,7 +176,7 @@ Theorem C12_scaling_matrix_spec : forall init M aw,
                                      (seq 1 (length (hd [] M) - 1))))
            (seq 1 (max_level M aw)).
 Proof. exact placements_spec. Qed.
-Print Assumptions C12_scaling_matrix_spec.
+Print Assumptions C12_scaling_any_limit.
 
 (* meaning of the crossover index *)
 Theorem C12_scaling_crossover_meaning : forall l lvl,
@@ -163,39 +187,20 @@ Theorem C12_scaling_crossover_meaning : forall l lvl,
 Proof. exact first_ge_spec. Qed.
 Print Assumptions C12_scaling_crossover_meaning.
 
-(* with the specification's limit (the number of rows = n_prob + 1) the condition `cross < init` is vacuous *)
-Theorem C12_scaling_limit_vacuous_in_spec : forall M level c, M <> [] -> (cross M level c < length M)%nat.
-Proof. exact cross_lt_rows. Qed.
-Print Assumptions C12_scaling_limit_vacuous_in_spec.
-
-(* code (limit max_level + 1) = specification (limit n_prob + 1) whenever
-   max(levels, len(assessment_weights)) >= number of probability thresholds ... (PARTIAL: the unconditional
-   statement `scaling_to_wm M aw = scaling_to_wm_spec M aw` is false, see the next theorem) *)
-Theorem C12_scaling_matrix_spec_partial : forall M aw,
-  M <> [] -> (length M - 1 <= max_level M aw)%nat -> scaling_to_wm M aw = scaling_to_wm_spec M aw.
-Proof. exact scaling_code_eq_spec. Qed.
-Print Assumptions C12_scaling_matrix_spec_partial.
-
-(* ... and it is refuted without that hypothesis (known finding scaling-lowest-index-init): all documented checks
-   pass, yet the only decision point gets weight 0 instead of 1 *)
-Theorem C12_scaling_matrix_spec_refuted :
-  (exists r, wfs_m true M_wit [1] [1#4; 1#2] 1 = Ok r) /\
-  wfs_m false M_wit [1] [1#4; 1#2] 1 = Ok ([1#2; 1#4], [[0]; [0]]) /\
-  wfs_m true M_wit [1] [1#4; 1#2] 1 = Ok ([1#2; 1#4], [[1 + 0]; [0]]).
-Proof. exact scaling_spec_refuted. Qed.
-Print Assumptions C12_scaling_matrix_spec_refuted.
-
-Theorem C12_scaling_depends_on_unused_weight_refuted :
-  scaling_to_wm M_wit [1] = [[0]; [0]] /\ scaling_to_wm M_wit [1; 5] = [[1 + 0]; [0]].
-Proof. exact scaling_depends_on_unused_weight. Qed.
-Print Assumptions C12_scaling_depends_on_unused_weight_refuted.
+(* regression witness of the repaired initialisation: 2 thresholds, one level reached only in the top row, one weight:
+   the decision point gets its weight, and an unused extra assessment weight does not change the result *)
+Theorem C12_scaling_witness :
+  wfs_m false M_wit [1] [1#4; 1#2] 1 = Ok ([1#2; 1#4], [[1 + 0]; [0]]) /\
+  scaling_to_wm M_wit [1] = scaling_to_wm M_wit [1; 5].
+Proof. exact scaling_witness. Qed.
+Print Assumptions C12_scaling_witness.
 
 (* the full-function models: every output cell of firm / risk_matrix_score is the NaN-skipping mean, over the
    reduced dimensions, of weights times the per-case sums characterised above *)
-Theorem C12_firm_cells : forall c fcst obs alpha ths wts d rd pd w assign r e,
-  firm_m c fcst obs alpha ths wts d rd pd w assign = Ok r ->
+Theorem C12_firm_cells : forall c fcst obs alpha ths wts dopt rd pd w assign r e,
+  firm_m c fcst obs alpha ths wts dopt rd pd w assign = Ok r ->
   exists R, gather (ldims fcst) (ldims obs) None rd pd DNone = Ok R /\
-    let s := apply_weights w (firm_pointwise c fcst obs alpha ths wts d assign) in
+    let s := apply_weights w (firm_pointwise c fcst obs alpha ths wts (firm_disc dopt) assign) in
     lget r e = nanmean (map (lget s) (envs (lsize s) (dinter (ldims s) R) e)).
 Proof. exact firm_m_value. Qed.
 Print Assumptions C12_firm_cells.
